@@ -26,7 +26,7 @@ type Case struct {
 func TestMain(m *testing.M) {
 	h.Setup("C16",
 		"class expressions from a random class grammar (chars, ranges, shorthands, \\p{..}/\\P{..} over general categories and scripts, POSIX names under RE2, negation, subtraction nested up to depth 3) x options subsets of {IgnoreCase, ECMAScript, RE2} x ASCII bitmap on/off; rune domain = U+0000-U+024F exhaustively, every range endpoint +-1, surrogate and plane boundaries, U+10FFFF and 120 sampled code points (thorough: every code point through the parsed set); one evaluation = one (class, options, rune) compared through 11 lookup paths (incl. the class as a leading nullable loop followed by another atom, [..]*! and [..]?m, with and without the ASCII bitmap): CharIn of the set in the parsed tree, and MatchRunes of \\A[..]\\z, [..]+ and x*[..] on the single rune, each with and without the ASCII bitmap; non-trivial = the class has >=2 item kinds or a subtraction or a negation and the rune domain contains both members and non-members; distinct = hash of (class text, options, rune)",
-		map[string]float64{"subtraction/classes": 0.15, "negated/classes": 0.2, "ignorecase/classes": 0.15, "re2/classes": 0.1, "ecma/classes": 0.05, "prop/classes": 0.1},
+		map[string]float64{"subtraction/classes": 0.1, "negated/classes": 0.2, "ignorecase/classes": 0.15, "re2/classes": 0.1, "ecma/classes": 0.05, "prop/classes": 0.1},
 		"raw category/script membership comes from Go's unicode tables, which the engine also uses; the oracle is independent in the algebra, canonicalisation and case handling",
 		"under IgnoreCase members and the rune domain are limited to ASCII plus letters with a plain upper/lower pair (plus complement-style classes whose gap lies in 0x21-0x5A, where folding is unambiguous); \\P{Lu|Ll|Lt} is not generated under IgnoreCase (no agreed meaning)",
 		"under IgnoreCase \\p{Lu}, \\p{Ll}, \\p{Lt} each mean the union of the three (documented in the engine's source)")
